@@ -98,6 +98,7 @@ func oRun(c oCase, dir string) (res oRes) {
 		if tag == "" {
 			continue
 		}
+		tag = strings.Split(tag, ",")[0] // the documented key; tag options are not part of it
 		f := rv.Field(i)
 		of := oField{Yaml: tag, Flag: flags[f.Addr().Pointer()],
 			Env: "VFLOW_" + strings.ReplaceAll(strings.ToUpper(tag), "-", "_")}
